@@ -275,7 +275,7 @@ theorem var_shift_total (l : List α) (c : α) : var (l.map (· + c)) = var l :=
   simp [var_eq_total, m2_shift]
 
 /-- Variance scales quadratically. -/
-theorem var_scale (l : List α) (s : α) : var (l.map (s * ·)) = s ^ 2 * var l := by
+theorem var_scale_total (l : List α) (s : α) : var (l.map (s * ·)) = s ^ 2 * var l := by
   simp [var_eq_total, m2_scale, mul_div_assoc]
 
 theorem sampleVar_shift_total (l : List α) (c : α) : sampleVar (l.map (· + c)) = sampleVar l := by
@@ -283,7 +283,7 @@ theorem sampleVar_shift_total (l : List α) (c : α) : sampleVar (l.map (· + c)
   · subst h; rfl
   · rw [sampleVar_eq_total _ (by simpa using h), sampleVar_eq_total _ h, m2_shift, List.length_map]
 
-theorem sampleVar_scale (l : List α) (s : α) :
+theorem sampleVar_scale_total (l : List α) (s : α) :
     sampleVar (l.map (s * ·)) = (sampleVar l).map (s ^ 2 * ·) := by
   by_cases h : l = []
   · subst h; rfl
@@ -308,7 +308,7 @@ theorem cov_shift_total (x y : List α) (c d : α) :
   · simp [covariance, sampleCovariance, h]
 
 /-- Covariance is bilinear under scaling of the variables. -/
-theorem cov_scale (x y : List α) (s t : α) :
+theorem cov_scale_total (x y : List α) (s t : α) :
     covariance (x.map (s * ·)) (y.map (t * ·)) = (covariance x y).map (s * t * ·) ∧
     sampleCovariance (x.map (s * ·)) (y.map (t * ·)) = (sampleCovariance x y).map (s * t * ·) := by
   by_cases h : x.length = y.length
@@ -754,6 +754,23 @@ example : sampleCovarianceOnline ([1, 2, 4] : List ℚ) [3, 1, 1] = some (-4 / 3
 
 example : var ([5, 5, 8] : List ℚ) = 2 := by
   rw [var_eq _ (by decide)]; norm_num [m2, mu]
+
+/-- Variance scales quadratically (`n ≥ 1`). -/
+theorem var_scale (l : List α) (s : α) (_h : 1 ≤ l.length) : var (l.map (s * ·)) = s ^ 2 * var l :=
+  var_scale_total l s
+
+theorem sampleVar_scale (l : List α) (s : α) (_h : 2 ≤ l.length) :
+    sampleVar (l.map (s * ·)) = (sampleVar l).map (s ^ 2 * ·) := sampleVar_scale_total l s
+
+/-- The two two-pass covariances are bilinear under scaling of the variables (`n ≥ 2`). -/
+theorem cov_scale (x y : List α) (s t : α) (_h2 : 2 ≤ x.length) :
+    covariance (x.map (s * ·)) (y.map (t * ·)) = (covariance x y).map (s * t * ·) ∧
+    sampleCovariance (x.map (s * ·)) (y.map (t * ·)) = (sampleCovariance x y).map (s * t * ·) :=
+  cov_scale_total x y s t
+
+example : var ([2, 4, 6] : List ℚ) = 2 ^ 2 * var [1, 2, 3] := by
+  have := var_scale ([1, 2, 3] : List ℚ) 2 (by decide)
+  norm_num at this; exact this
 
 end Guarded
 
